@@ -123,6 +123,10 @@ def run(chk: core.Check):
     # the same entry / string key two and three times, for keys that look like format fields, escapes, percent codes, ...
     for key in ["a\\{b", "a\\}b", "\\{0\\}", "\\{\\}", "%s", "%(x)s", "{0", "a b", "é", "", "k", "\\", "$1", "\\n", "a\\\"b", "0"]:
         garb.append("@a{%s, x = 1}\n@b{%s, y = {2}}\n@string{%s = 1}\n@string{%s = \"2\"}\n@a{%s}" % ((key,) * 5))
+    # keys that are different strings but equal under case folding / Unicode normalisation / after stripping
+    for k1, k2 in [("\u00e9", "e\u0301"), ("\u212b", "\u00c5"), ("\uac00", "\u1100\u1161"), ("K", "\u212a"), ("stra\u00dfe", "strasse"), ("A", "a"),
+                   ("\ufb01", "fi"), ("k", "k\u200b"), ("\u0130", "i\u0307")]:
+        garb.append("@a{%s, x = 1}\n@a{%s, x = 2}\n@string{%s = 1}\n@string{%s = 2}\n@a{%s, x = 3}" % (k1, k2, k1, k2, k1))
     recs = splitpipe.t3(chk, bib, texts + garb)
     chk.clause("T3.families", len(texts))
     chk.clause("T3.garbage", len(garb))
